@@ -4,7 +4,7 @@ EXTENDS SshAudit, Json, IOUtils
 
 Base == [hk |-> <<>>, kexOK |-> FALSE, kexGex |-> FALSE, gex |-> {}, dh |-> FALSE,
          moduli |-> {}, style |-> "strict", openssh |-> FALSE, skipRate |-> TRUE,
-         role |-> "server", proto |-> "2", try |-> "12", cliTimeout |-> FALSE]
+         role |-> "server", proto |-> "2", try |-> "12", cliTimeout |-> FALSE, granular |-> <<>>]
 GexSha256 == "diffie-hellman-group-exchange-sha256"
 GexSha1 == "diffie-hellman-group-exchange-sha1"
 
@@ -27,15 +27,19 @@ RateServers == {[Base EXCEPT !.dh = d, !.skipRate = sk] : d \in BOOLEAN, sk \in 
 NoServers == {}
 Combined == {[hk |-> <<"rsa-sha2-512", "ssh-ed25519">>, kexOK |-> TRUE, kexGex |-> FALSE, gex |-> {GexSha256}, dh |-> TRUE,
               moduli |-> {2048, 4096}, style |-> "openssh", openssh |-> TRUE, skipRate |-> FALSE,
-              role |-> "server", proto |-> "2", try |-> "12", cliTimeout |-> FALSE]}
+              role |-> "server", proto |-> "2", try |-> "12", cliTimeout |-> FALSE, granular |-> <<>>]}
 \* SSH-1 peers under every protocol selection, peers refusing both versions, and client audits (with and without -t)
 Full == [hk |-> <<"rsa-sha2-512", "ssh-ed25519">>, kexOK |-> TRUE, kexGex |-> FALSE, gex |-> {GexSha256}, dh |-> TRUE,
          moduli |-> {2048}, style |-> "strict", openssh |-> FALSE, skipRate |-> FALSE,
-         role |-> "server", proto |-> "2", try |-> "12", cliTimeout |-> FALSE]
+         role |-> "server", proto |-> "2", try |-> "12", cliTimeout |-> FALSE, granular |-> <<>>]
 ProtoServers == {[b EXCEPT !.proto = p, !.try = t] : b \in {Base, Full}, p \in {"1", "2", "none"}, t \in {"12", "1", "2"}}
                   \ {x \in {[b EXCEPT !.proto = "2", !.try = "1"] : b \in {Base, Full}} : TRUE}      \* (-1 against an SSH-2 peer: not modelled)
 ClientAudits == {[b EXCEPT !.role = "client", !.cliTimeout = ct] : b \in {Base, Full}, ct \in BOOLEAN}
-FaultFamily == HkFamilyServers \cup GexFaultServers \cup RateServers \cup Combined \cup ProtoServers \cup ClientAudits
+\* -g request lists against a few moduli policies
+GranularRuns == {[Base EXCEPT !.gex = g, !.moduli = m, !.style = st, !.hk = <<"ssh-ed25519">>, !.kexOK = TRUE, !.granular = r] :
+                    g \in {{}, {GexSha256}, {GexSha1, GexSha256}}, m \in {{}, {2048}, {2048, 4096}}, st \in {"strict", "openssh"},
+                    r \in {<<<<2048, 2048, 2048>>>>, <<<<1024, 1024, 1024>>, <<4096, 4096, 4096>>>>, <<<<1024, 3072, 8192>>, <<2048, 2048, 2048>>, <<512, 512, 512>>>>}}
+FaultFamily == HkFamilyServers \cup GexFaultServers \cup RateServers \cup Combined \cup ProtoServers \cup ClientAudits \cup GranularRuns
 
 \* -g (granular group-exchange test; beyond the listed properties, bound in C12): the distinct group sizes a server hands out
 \* for a list of (min, pref, max) requests, in the order they are first seen
@@ -50,6 +54,7 @@ ASSUME GranularInput = <<>> \/ PrintT(ToJson([k \in 1..Len(GranularInput) |->
 NeverFallsBack == hs.orphans = 0
 NeverClientReport == ~(srv.role = "client" /\ reportShown)
 NeverSsh1Report == ~(hs.sshv = 1 /\ reportShown)
+NeverGranularFails == ~(srv.granular # <<>> /\ pc = "done" /\ exit = 3)
 NeverClientGivesUp == ~(srv.role = "client" /\ pc = "done" /\ exit = 1 /\ nConn["handshake"] = 0)
 
 \* the C12 oracle: terminal state of every fault-free behaviour
